@@ -80,6 +80,10 @@ pub enum Req {
     /// negotiated protocol version 4 (HsmdInit2 / LDK-style clients): the handler validates and
     /// then revokes the previous commitment in one request, which must stay one atomic step
     WireValidate { ch: u8, n: u8, variant: u8 },
+    /// Node::add_invoice of a 30 000 sat invoice for hash 10 + h (validator factory, node state)
+    Invoice { h: u8 },
+    /// Node::sign_bolt11_invoice of an invoice the node issues itself for hash 14 + h
+    IssueInvoice { h: u8 },
 }
 
 #[derive(Clone, Debug, Serialize, Deserialize)]
@@ -114,6 +118,8 @@ fn req_strat() -> impl Strategy<Value = Req> {
         2 => Just(Req::SignOnchain),
         4 => (ch(), any::<bool>()).prop_map(|(ch, phase1)| Req::CSignPay { ch, phase1 }),
         5 => (ch(), n(), 0u8..2).prop_map(|(ch, n, variant)| Req::WireValidate { ch, n, variant }),
+        4 => (0u8..2).prop_map(|h| Req::Invoice { h }),
+        2 => (0u8..2).prop_map(|h| Req::IssueInvoice { h }),
     ]
 }
 
@@ -278,6 +284,8 @@ struct Ctx2 {
     /// counterparty point 0 and content of commitment 0 of the stub channel
     stub_c0: Option<(PublicKey, Content)>,
     approver: vls_protocol_signer::approver::VelocityApprover<vls_protocol_signer::approver::NegativeApprover>,
+    /// the signer's clock at preparation time (invoice timestamps)
+    now: std::time::Duration,
     /// channel handlers (protocol version 4) for the two channels, over the same node
     handlers: Vec<vls_protocol_signer::handler::ChannelHandler>,
 }
@@ -393,6 +401,10 @@ fn prepare(f: &Fresh) -> Ctx2 {
         (0..2).map(|ci| root.for_new_client(ci as u64 + 1, model::PubKey(peer_id(w.chans[ci].spec.peer)), w.chans[ci].spec.dbid)).collect::<Vec<_>>()
     };
     Ctx2 {
+        now: {
+            use lightning_signer::util::clock::Clock;
+            std::time::Duration::from_secs(w.clock.now().as_secs())
+        },
         handlers,
         node: w.node.clone(),
         ids: w.chans.iter().map(|c| c.id0.clone()).collect(),
@@ -548,6 +560,37 @@ fn exec(cx: &Ctx2, r: &Req) -> String {
                 Ok(b) => format!("ok:{}", b),
                 Err(_) => "err".into(),
             }
+        }
+        Req::Invoice { h } => {
+            use lightning_signer::bitcoin::hashes::sha256::Hash as Sha256;
+            use lightning_signer::lightning::types::payment::PaymentSecret;
+            use lightning_signer::lightning_invoice::{Currency, InvoiceBuilder};
+            let key = SecretKey::from_slice(&[42; 32]).unwrap();
+            let inv = InvoiceBuilder::new(if cx.chain { Currency::Regtest } else { Currency::BitcoinTestnet })
+                .description("c20".into())
+                .payment_hash(Sha256::from_byte_array(phash(10 + *h).0))
+                .payment_secret(PaymentSecret([*h; 32]))
+                .duration_since_epoch(cx.now)
+                .min_final_cltv_expiry_delta(144)
+                .amount_milli_satoshis(30_000_000)
+                .build_signed(|hash| bitcoin::secp256k1::Secp256k1::new().sign_ecdsa_recoverable(hash, &key))
+                .expect("invoice");
+            st(node.add_invoice(lightning_signer::invoice::Invoice::Bolt11(inv)).map(|b| b.to_string()))
+        }
+        Req::IssueInvoice { h } => {
+            use lightning_signer::bitcoin::hashes::sha256::Hash as Sha256;
+            use lightning_signer::lightning::types::payment::PaymentSecret;
+            use lightning_signer::lightning_invoice::{Currency, InvoiceBuilder};
+            let raw = InvoiceBuilder::new(if cx.chain { Currency::Regtest } else { Currency::BitcoinTestnet })
+                .description("c20 issued".into())
+                .payment_hash(Sha256::from_byte_array(phash(14 + *h).0))
+                .payment_secret(PaymentSecret([*h; 32]))
+                .duration_since_epoch(cx.now)
+                .min_final_cltv_expiry_delta(144)
+                .amount_milli_satoshis(20_000_000)
+                .build_raw()
+                .expect("raw invoice");
+            st(node.sign_bolt11_invoice(raw).map(|_| String::new()))
         }
         Req::WireValidate { ch, n, variant } => {
             use vls_protocol_signer::handler::Handler;
